@@ -10,7 +10,9 @@ MANIFEST = {
             "(S_ws = HTTP upgrade lines + RFC 6455 frames, M_ws = coap_ws_rd_http_header / coap_ws_read / the WS loop of "
             "coap_read_session): frame phase at full strength - ws_frames_eq_spec (from every reader state of the invariant WsInv "
             "with the handshake done, for every list of chunks: messages, order, closed-or-not = S_ws on pending ++ concatenated "
-            "bytes), ws_frames_segmentation_invariant, ws_frames_cut_invariant, ws_frames_no_message_stuck, ws_frames_no_oob; whole "
+            "bytes), ws_frames_segmentation_invariant, ws_frames_cut_invariant, ws_frames_no_message_stuck, ws_frames_no_oob; for every "
+            "byte stream and segmentation ws_reader_no_oob (never outside http_hdr[160] / rd_header[14], never stalled) and "
+            "ws_reader_final_state (an open session holds at most a proper prefix of one frame or an unfinished header line); whole "
             "connection incl. the upgrade - ws_reader_eq_spec_partial, ws_reader_segmentation_invariant_partial, "
             "ws_reader_cut_invariant_partial, ws_no_message_stuck_partial, ws_reader_no_oob_partial for every list of chunks whose "
             "header block has no NUL byte in a complete line and no accepted line starting with its separator (hsCleanOf); outside "
@@ -31,7 +33,8 @@ REQUIRED_THEOREMS = ["reader_eq_spec", "reader_segmentation_invariant", "reader_
                      "ws_frames_eq_spec", "ws_frames_segmentation_invariant", "ws_frames_cut_invariant",
                      "ws_frames_no_message_stuck", "ws_frames_no_oob", "ws_init_inv", "ws_up_inv",
                      "ws_reader_eq_spec_partial", "ws_reader_segmentation_invariant_partial", "ws_reader_cut_invariant_partial",
-                     "ws_no_message_stuck_partial", "ws_reader_no_oob_partial", "ws_blank_led_line_differs"]
+                     "ws_no_message_stuck_partial", "ws_reader_no_oob_partial", "ws_blank_led_line_differs",
+                     "ws_reader_no_oob", "ws_reader_final_state"]
 RULE = ("(byte stream, segmentation) pairs replayed into the real coap_read_session of a TCP / WebSocket session whose lowest "
         "layer is a chunk feeder: streams = 1-6 encoded messages (all four TCP length forms, tokens 0..extended, a share of "
         "field-mutated frames, oversize declared lengths, small configured maxima; WS: handshake + masked/unmasked frames with "
